@@ -1,30 +1,59 @@
 ---------------------------- MODULE CharIO_Trace ----------------------------
-(* Code -> spec: observations of the real get_characteristics / put_characteristics /
-   format_characteristic_list (what was returned or raised, what the listeners were told) for a
-   case of CharIO are validated against the relation Holds (WriteOK / ReadOK).  The algorithm of
-   the specification is run from the recorded case as well, so its own outcome is checked
-   against the same relation (Faithful) for exactly the cases the real code was run on. *)
+(* Code -> spec: recorded histories of the real get_characteristics / put_characteristics /
+   format_characteristic_list are validated against CharIO.  One record = one request as the caller
+   wrote it (h: transport, operation, items, permissions) and a sequence of calls issued with the
+   SAME caller-side collection object; each call has the accessory's reply (r) and the observation
+   (o: what was returned or raised, what the listeners were told, whether the collection still has
+   its content, which characteristics the accessory was asked for).
+
+   Every call is judged by CallOK against the case built from the CALLER's items and that call's
+   reply - the outcome may not depend on earlier calls.  The algorithm of the specification is run
+   for every call as well, so its own outcome is checked against the same relation (Faithful) for
+   exactly the cases the real code was run on. *)
 EXTENDS CharIO, Json, IOUtils, SequencesExt
 
 Recs == ndJsonDeserialize(IOEnv.TRACE_FILE)
 
-VARIABLE tid
-tvars == <<vars, tid>>
+VARIABLES tid, i
+tvars == <<vars, tid, i>>
+
+CaseAt(t, n) ==
+    LET h == Recs[t].h  r == Recs[t].calls[n].r IN
+    Case(h.tr, h.op, h.items, h.perms, r.reqKnown, r.http, r.hasG, r.g, r.entries)
 
 TInit == /\ tid \in 1..Len(Recs)
-         /\ c = Recs[tid].c
+         /\ i = 1
+         /\ c = CaseAt(tid, 1)
          /\ Start
-TNext == Next /\ UNCHANGED tid
+TStep == Next /\ UNCHANGED <<tid, i>>
+TNextCall ==
+    /\ pc = "done" /\ i < Len(Recs[tid].calls)
+    /\ i' = i + 1
+    /\ c' = CaseAt(tid, i + 1)
+    /\ pc' = "start" /\ idx' = 1 /\ result' = [k \in U |-> NoRes]
+    /\ pending' = {} /\ ncount' = [k \in U |-> 0] /\ exc' = FALSE
+    /\ UNCHANGED tid
+TNext == TStep \/ TNextCall
 TSpec == TInit /\ [][TNext]_tvars
 
-Obs(t) == Recs[t].o
-Accepted(t) == Holds(Recs[t].c, Obs(t).exc, RangeOf(Obs(t).res), Obs(t).ncount, Obs(t).nbad)
+\* light form (quick tier): only the calls are stepped through; the algorithm is not re-run (it is checked on
+\* every exported case by CharIO / CharIOHist, and re-run on the recorded cases in the thorough tier)
+TNextCallLight ==
+    /\ i < Len(Recs[tid].calls)
+    /\ i' = i + 1
+    /\ c' = CaseAt(tid, i + 1)
+    /\ UNCHANGED <<pc, idx, result, pending, ncount, exc, tid>>
+TSpecLight == TInit /\ [][TNextCallLight]_tvars
 
-\* what the real code returned / raised / told the listeners is a faithful report
-Conforms == Accepted(tid)
+Accepted(t, n) == CallOK(CaseAt(t, n), Recs[t].calls[n].o)
 
-\* second pass after a rejection: the numbers of all rejected records, for the report
+\* what the real code returned / raised / told the listeners / did to the caller's collection in the
+\* current call is a faithful report for the caller's request and this call's reply
+Conforms == Accepted(tid, i)
+
+\* second pass after a rejection: <<record, call>> of every rejected call, for the report
 ExportRejected ==
     /\ TLCGet("stats").generated >= 0
-    /\ ndJsonSerialize(IOEnv.REJECT_OUT, SetToSeq({ t \in 1..Len(Recs) : ~Accepted(t) }))
+    /\ ndJsonSerialize(IOEnv.REJECT_OUT,
+          SetToSeq({ tn \in (1..Len(Recs)) \X (1..2) : tn[2] <= Len(Recs[tn[1]].calls) /\ ~Accepted(tn[1], tn[2]) }))
 =============================================================================
